@@ -850,7 +850,19 @@ def gen_solver():
 # G3: api_symfc.py
 # ----------------------------------------------------------------------------------------
 
+API_HEAD = ["/- REGENERATED by tools/extract.py from api_symfc.py — do not edit. -/",
+            "import SymfcModel.Model.Types", "namespace Symfc.Gen", "open Symfc", ""]
+
+
 def gen_api():
+    """aggregator: the four sections are generated (and can fail) separately, so that a change of one API method
+    only breaks the obligations that depend on it"""
+    return ("/- REGENERATED by tools/extract.py — aggregator of the api_symfc.py sections. -/\n"
+            "import SymfcModel.Gen.ApiOrders\nimport SymfcModel.Gen.ApiDataset\n"
+            "import SymfcModel.Gen.ApiSolve\nimport SymfcModel.Gen.ApiCompute\n")
+
+
+def gen_api_orders():
     rel = "api_symfc.py"
     mod = parse(rel)
     cls = "Symfc"
@@ -883,6 +895,15 @@ def gen_api():
     if ast.unparse(body[2]) != "return orders":
         fail(rel, body[2], "_check_orders must return orders")
     rec(rel, co, "_check_orders whitelists", {"max_order": mo_white, "orders": o_white})
+    return "\n".join(API_HEAD + [f"def maxOrderWhitelist : List Nat := {lean_list(mo_white)}",
+                                 f"def ordersWhitelist : List (List Nat) := {lean_list(o_white)}",
+                                 "", "end Symfc.Gen"]) + "\n"
+
+
+def gen_api_dataset():
+    rel = "api_symfc.py"
+    mod = parse(rel)
+    cls = "Symfc"
     # ---- _check_dataset
     cd = find_func(mod, "_check_dataset", rel, cls)
     guards = []
@@ -901,6 +922,14 @@ def gen_api():
             fail(rel, st, f"_check_dataset: unknown guard {ast.unparse(st.test)}")
         guards.append(g)
     rec(rel, cd, "_check_dataset guards", guards)
+    return "\n".join(API_HEAD + ["def datasetGuards : List Guard := [" + ", ".join("." + g for g in guards) + "]",
+                                 "", "end Symfc.Gen"]) + "\n"
+
+
+def gen_api_solve():
+    rel = "api_symfc.py"
+    mod = parse(rel)
+    cls = "Symfc"
     # ---- solve
     sv = find_func(mod, "solve", rel, cls)
     sb = strip_doc(sv.body)
@@ -974,6 +1003,21 @@ def gen_api():
                    "self.solve(max_order=max_order,orders=orders,is_compact_fc=is_compact_fc,batch_size=batch_size)"
                    and ast.unparse(rb[1]) == "return self")
     rec(rel, rn, "run = guarded compute_basis_set; solve", run_guarded)
+
+    def br(b):
+        return (f"  {{ orders := {lean_list(b['orders'])}, basisKeys := {lean_list(b['basisKeys'])}, "
+                f"fcKeys := {lean_list(b['fcKeys'])}, writesAfter := {lean_list(b['writesAfter'])}, "
+                f"passesBatch := {lean_list(b['passesBatch'])} }}")
+    return "\n".join(API_HEAD + [f"def solveChecksFirst : Bool := {lean_list(checks_first)}",
+                                 "def solveBranches : List SolveBranch := [\n" + ",\n".join(br(b) for b in branches) + "]",
+                                 f"def runGuarded : Bool := {lean_list(run_guarded)}",
+                                 "", "end Symfc.Gen"]) + "\n"
+
+
+def gen_api_compute():
+    rel = "api_symfc.py"
+    mod = parse(rel)
+    cls = "Symfc"
     # ---- compute_basis_set
     cb = find_func(mod, "compute_basis_set", rel, cls)
     cbb = strip_doc(cb.body)
@@ -1001,21 +1045,9 @@ def gen_api():
         if w not in pc:
             fail(rel, mod, f"_prepare_cutoff: expected `{w}`")
 
-    def br(b):
-        return (f"  {{ orders := {lean_list(b['orders'])}, basisKeys := {lean_list(b['basisKeys'])}, "
-                f"fcKeys := {lean_list(b['fcKeys'])}, writesAfter := {lean_list(b['writesAfter'])}, "
-                f"passesBatch := {lean_list(b['passesBatch'])} }}")
-    out = ["/- REGENERATED by tools/extract.py from api_symfc.py — do not edit. -/",
-           "import SymfcModel.Model.Types", "namespace Symfc.Gen", "open Symfc", "",
-           f"def maxOrderWhitelist : List Nat := {lean_list(mo_white)}",
-           f"def ordersWhitelist : List (List Nat) := {lean_list(o_white)}",
-           "def datasetGuards : List Guard := [" + ", ".join("." + g for g in guards) + "]",
-           f"def solveChecksFirst : Bool := {lean_list(checks_first)}",
-           "def solveBranches : List SolveBranch := [\n" + ",\n".join(br(b) for b in branches) + "]",
-           f"def runGuarded : Bool := {lean_list(run_guarded)}",
-           "def computeCutoffKeys : List (Nat × Nat) := [" + ", ".join(f"({a}, {b})" for a, b in cut_keys) + "]",
-           "", "end Symfc.Gen"]
-    return "\n".join(out) + "\n"
+    return "\n".join(API_HEAD + ["def computeCutoffKeys : List (Nat × Nat) := [" +
+                                 ", ".join(f"({a}, {b})" for a, b in cut_keys) + "]",
+                                 "", "end Symfc.Gen"]) + "\n"
 
 
 # ----------------------------------------------------------------------------------------
@@ -1243,6 +1275,10 @@ GENERATORS = {
     "PermTables": gen_perm_tables,
     "Cutoff": gen_cutoff,
     "Solver": gen_solver,
+    "ApiOrders": gen_api_orders,
+    "ApiDataset": gen_api_dataset,
+    "ApiSolve": gen_api_solve,
+    "ApiCompute": gen_api_compute,
     "Api": gen_api,
     "Eig": gen_eig,
     "SumRule": gen_sumrule,
